@@ -76,8 +76,21 @@ fn random_gap(rng: &Rng, ws_only: bool, must_separate: bool, out: &mut String, k
     let n = if must_separate { rng.range(1, 3) } else { rng.range(0, 2) };
     let mut wrote = false;
     for _ in 0..n {
-        let k = rng.below(if ws_only { 8 } else { 14 });
+        let k = if ws_only {
+            // inside a pragma: white space, or a comment without `;` (the lexer takes everything up to the `;` as the value)
+            if rng.chance(1, 5) { 14 + rng.below(2) } else { rng.below(8) }
+        } else {
+            rng.below(14)
+        };
         match k {
+            14 => {
+                out.push_str(rng.ps(&["/* ^9.9.9 */", "/* 0.4.0 */", "/* é */", "/* >=0.1.0 <0.2.0 */", "/**/", "/* a */"]));
+                kinds.push("block-comment-inside-pragma");
+            }
+            15 => {
+                out.push_str(rng.ps(&["// ^0.1.2\n", "// 0.3.3\r\n", "// plain\n"]));
+                kinds.push("line-comment-inside-pragma");
+            }
             0 | 1 | 2 => {
                 out.push(' ');
                 kinds.push("space");
@@ -160,7 +173,8 @@ pub fn lay(toks: &[Tok], layout: Layout, rng: &Rng) -> (Laid, Vec<&'static str>)
     for (i, t) in toks.iter().enumerate() {
         if i > 0 {
             let prev = &toks[i - 1];
-            let can_glue = (is_glue_punct(&prev.s) || is_glue_punct(&t.s)) && !t.ws_only_before;
+            let can_glue = if t.ws_only_before { t.glue_ok } else { is_glue_punct(&prev.s) || is_glue_punct(&t.s) };
+            let prev_is_pragma_op = t.ws_only_before && matches!(prev.s.as_str(), ">=" | "<=" | ">" | "<" | "=" | "^" | "~");
             match layout {
                 Layout::OneTokenPerLine => text.push('\n'),
                 Layout::SingleLine | Layout::SingleLineNl => text.push(' '),
@@ -182,7 +196,7 @@ pub fn lay(toks: &[Tok], layout: Layout, rng: &Rng) -> (Laid, Vec<&'static str>)
                         for _ in 0..depth {
                             text.push_str("    ");
                         }
-                    } else if !can_glue || !(t.s == ";" || t.s == "," || t.s == ")" || prev.s == "(") {
+                    } else if !can_glue || !(t.s == ";" || t.s == "," || t.s == ")" || prev.s == "(" || prev_is_pragma_op) {
                         text.push(' ');
                     }
                 }
@@ -244,13 +258,13 @@ pub fn lex(text: &str) -> Option<Vec<Tok>> {
                 after_value = prev2[1] && !matches!(tok, Token::Semicolon);
                 prev2 = [is_pragma, prev2[0] && is_ident];
                 if after_value {
-                    // a pragma's value: one raw string for the lexer, white-space separated tokens for us
-                    for part in text[s..e].split_whitespace() {
-                        out.push(Tok { s: part.to_string(), ws_only_before: true });
+                    // a pragma's value: one raw string for the lexer, operators and atoms (comments dropped) for us
+                    for (part, glue) in crate::gast::pragma_value_tokens(&text[s..e]) {
+                        out.push(Tok { s: part, ws_only_before: true, glue_ok: glue });
                     }
                     continue;
                 }
-                out.push(Tok { s: text[s..e].to_string(), ws_only_before: ws_only });
+                out.push(Tok { s: text[s..e].to_string(), ws_only_before: ws_only, glue_ok: ws_only && matches!(tok, solang_parser::lexer::Token::Semicolon) });
             }
             Err(_) => return None,
         }
